@@ -1056,6 +1056,15 @@ func c14RunSeq(rep *verifutil.Report, t *testing.T, sc int, nOps int, progress *
 		s.p.Chain.StopSync()
 	}
 	rep.Count("seq_scenarios", 1)
+	c14Release(w)
+}
+
+// c14Release drops what the simulator keeps per world in package-level variables (contract
+// book-keeping, the shared in-memory content store with all block bodies), so that long
+// tiers do not accumulate every world ever built.
+func c14Release(w *World) {
+	delete(contractsByWorld, w)
+	theIpfs = nil
 }
 
 func TestVerifC14Seq(t *testing.T) {
